@@ -3,7 +3,7 @@
    The body predicate is Sem/RVWf.instr_wf (registers x0..x31; ADDI / JALR / LW / SW 12-bit signed immediate; LI any
    64-bit value); a lemma `W (method ...)` for each method of rv_backend; the generic theorem
    Proof/CodegenForallLinP.v with the bounds 2048 (copies of one variable: `ADDI X1, X1, n`; from the capacity, tfp_cap)
-   and 512 (xtors of a type: `ADDI X1, Xt, 4k`; a guard); the label theorems of Proof/LabelThms.v.  The back end has no spill slots and no routine
+   and 2^61 (xtors of a type: the offset 4k of the table dispatch is an ADDI immediate or, since the repair, an `LI`; a guard); the label theorems of Proof/LabelThms.v.  The back end has no spill slots and no routine
    wrapper in the instruction list; the offsets that occur are the field offsets 16..72 and 0. *)
 From Coq Require Import List ZArith NArith String Ascii Bool Lia.
 From SCC Require Import Base.Sexp Lang.AxSyn Lang.AxSize Model.ParMoves Model.Backend Model.Linearize Model.LinCheck Model.RV
@@ -71,10 +71,19 @@ Lemma tag_lit64 k : (k < RV_XTORS_MAX)%N -> lit64 (jump_length k) = true.
 Proof. unfold RV_XTORS_MAX, lit64, jump_length. intros H. apply andb_true_iff; split; apply Z.leb_le; lia. Qed.
 Lemma W_load_label t l : reg_enc t -> W (r_load_label t l).
 Proof. intros T. unfold r_load_label. wf. Qed.
-Lemma W_add_and_jump t k : reg_enc t -> (k < RV_XTORS_MAX)%N -> W (r_add_and_jump t (jump_length k)).
+(* the table dispatch of invoke: every 64-bit offset (repaired code; the old code only below 512 xtors) *)
+Lemma W_add_and_jump_any t i : reg_enc t -> lit64 i = true -> W (r_add_and_jump t i).
 Proof.
-  intros T K. assert (F : simm12 (jump_length k) = true) by (apply simm12_small; unfold RV_XTORS_MAX, jump_length in *; lia).
-  unfold r_add_and_jump. wf.
+  intros T L. apply lit_imm64 in L. pose proof reg_TEMP as RT. unfold r_add_and_jump. destruct (addi_fits i) eqn:FI.
+  - change (addi_fits i) with (simm12 i) in FI. wf.
+  - wf.
+Qed.
+Lemma W_add_and_jump t k : reg_enc t -> (k < RV_XTORS_MAX)%N -> W (r_add_and_jump t (jump_length k)).
+Proof. intros T K. apply W_add_and_jump_any; [exact T|apply tag_lit64; exact K]. Qed.
+Lemma W_old_add_and_jump t k : reg_enc t -> (k < RV_OLD_XTORS_MAX)%N -> W (old_r_add_and_jump t (jump_length k)).
+Proof.
+  intros T K. assert (F : simm12 (jump_length k) = true) by (apply simm12_small; unfold RV_OLD_XTORS_MAX, jump_length in *; lia).
+  unfold old_r_add_and_jump. wf.
 Qed.
 Lemma W_mov t s : reg_enc t -> reg_enc s -> W (r_mov t s).
 Proof. intros T S. unfold r_mov. wf. Qed.
